@@ -155,6 +155,14 @@ def r2_every_contig_gets_a_buffer(ctx):
     ok = ("(cur_contig_idx)<(len(self._contig_order))", True) in fs and ("self._has_default", True) in fs
     ctx.ob(ss.where, "SynchedStream: the trailing block runs whenever any contig of the order is still unvisited", ok, str(sorted(fs)), key="C12-R2|trailing-guard")
     wl = [n for n in g3.nodes if n.kind == "test" and isinstance(getattr(n, "stmt", None), ast.While)]
+    if not wl:
+        # the same test written as a plain `if`: only ONE contig without data is filled in before the stream's contig is compared again
+        once = [n for n in g3.nodes if n.kind == "test" and isinstance(getattr(n, "stmt", None), ast.If) and "cur_contig_idx" in u(n.ast) and "_contig_order[cur_contig_idx]" in u(n.ast)
+                and any(isinstance(x, ast.AugAssign) and u(x.target) == "cur_contig_idx" for b in n.stmt.body for x in ast.walk(b))]
+        if once:
+            ctx.ob(ss.where, "SynchedStream: contigs without data are skipped in a LOOP until the stream's contig is reached (a single `if` fills in one contig only: two "
+                   "consecutive contigs without data raise a spurious order error)", False, u(once[0].ast), key="C12-R2|skip-loop")
+            return
     ctx.need(len(wl) == 1, "SynchedStream: skip loop not found")
     fl = facts(wl[0].ast, True)
     ok = ("(cur_contig_idx)<(len(self._contig_order))", True) in fl and any(c in ("(name)==(self._contig_order[cur_contig_idx])", "(self._contig_order[cur_contig_idx])==(name)") and not p for c, p in fl)
@@ -354,6 +362,24 @@ def r6_group_boundaries_and_filter(ctx):
         ctx.ob(f.where, "a group boundary is any position where the key differs from its predecessor (`!=`), not only where it increases", ok, detail,
                key=f"C12-R6|boundary|{sym.canon(r.value)[:50]}")
     ctx.floor("boundary computations in get_changes", n, 3)
+    rc = ix.func("bionumpy.streams.groupby_func", "get_ragged_changes")
+    ch_defs = [x for x in body_walk(rc.node) if (isinstance(x, ast.Assign) and u(x.targets[0]) == "changes") or (isinstance(x, ast.AugAssign) and u(x.target) == "changes")]
+    ctx.need(ch_defs, "get_ragged_changes: boundary mask not found")
+    first_ok = isinstance(ch_defs[0], ast.Assign) and sym.same(ch_defs[0].value, "lengths[1:] != lengths[:-1]")
+    later = ch_defs[1:]
+    acc_ok = bool(later) and all(isinstance(x, ast.AugAssign) and isinstance(x.op, ast.BitOr) for x in later)
+    ctx.ob(rc.where, "ragged keys: a boundary is where the row LENGTH changes OR a character changes (the two signals are or-ed; a key that is a prefix of the next, chr1 / chr10, "
+           "differs in length only)", first_ok and acc_ok, "; ".join(u(x) for x in ch_defs), key="C12-R6|ragged-boundary")
+    ic = ix.func(GC, "GenomeContext.iter_chromosomes")
+    gi = CFG(ic.node)
+    filt = [n for n in gi.nodes if n.kind == "stmt" and isinstance(n.ast, ast.Assign) and isinstance(n.ast.value, ast.Call) and u(n.ast.value.func) == "self._included_groups"]
+    ctx.need(len(filt) == 1, "iter_chromosomes: filter of ignored / unknown groups not found")
+    fv = u(filt[0].ast.targets[0])
+    pulls_ = [n for n in gi.nodes if n.kind == "stmt" and any(isinstance(c, ast.Call) and u(c.func) == "next" and c.args and u(c.args[0]) == fv for c in ast.walk(n.ast))]
+    ctx.floor("pulls from the grouped stream in iter_chromosomes", len(pulls_), 2)
+    ok = all(gi.dominates(filt[0], p_) for p_ in pulls_)
+    ctx.ob(ic.where, "every group, the first one included, is pulled from the stream AFTER it was wrapped in the ignored / unknown-name filter", ok,
+           "; ".join(f"line {p_.ast.lineno}" for p_ in pulls_ if not gi.dominates(filt[0], p_)), key="C12-R6|filter-before-pull")
     G = "bionumpy.genomic_data.genome"
     init = ix.func(G, "Genome.__init__")
     ff = "filter_function"
